@@ -84,7 +84,7 @@ theorem Rel.core_left {W : World} {L : Lib} {s0 s s1 : State} (hc : SameCore s0 
 theorem sameCore_push (s : State) : SameCore s s.push := ⟨rfl, rfl, rfl⟩
 theorem sameCore_pop (s : State) : SameCore s s.pop := by
   unfold State.pop; split <;> exact ⟨rfl, rfl, rfl⟩
-theorem sameCore_extend (s : State) (is : List Item) : SameCore s (s.extend is) := ⟨rfl, rfl, rfl⟩
+theorem sameCore_setThy (s : State) (t : List Item) : SameCore s (s.setThy t) := ⟨rfl, rfl, rfl⟩
 theorem sameCore_logEv (s : State) (e : Event) : SameCore s (s.logEv e) := ⟨rfl, rfl, rfl⟩
 
 theorem pop_push_thy (s s1 : State) (hb : s1.blocks = s.push.blocks) : s1.pop.thy = s.thy ∧ s1.pop.blocks = s.blocks := by
@@ -123,8 +123,8 @@ theorem parseAll_weaken (P P' : Item → List Item → PRes) (hP : ∀ i ctx, P'
     · rw [hp] at h; simp at h
 
 theorem parseAll_fault (W : World) (fault : Option Item) (items : List Item) (ctx : List Item) (c : List (Item × PRes))
-    (h : parseAll (W.pf fault) ctx items = some c) : parseAll W.parse ctx items = some c := by
-  refine parseAll_weaken W.parse (W.pf fault) ?_ items ctx c h
+    (h : parseAll (W.pf fault) ctx items = some c) : parseAll (W.pf none) ctx items = some c := by
+  refine parseAll_weaken (W.pf none) (W.pf fault) ?_ items ctx c h
   intro i ctx
   unfold World.pf
   by_cases hf : fault = some i <;> simp [hf]
